@@ -197,7 +197,8 @@ func (jenny RawTypes) generateConstructor(buffer *strings.Builder, context langu
 
 	if object.Type.IsRef() {
 		referredObj, found := context.LocateObjectByRef(*object.Type.Ref)
-		if !found || !referredObj.Type.IsStruct() {
+		// the referred object can be an alias too (`A2: A1`, `A1: Inner`): it has a constructor as well
+		if !found || !context.ResolveRefs(referredObj.Type).IsStruct() {
 			return
 		}
 
